@@ -34,6 +34,42 @@ func gen(t *rapid.T) udprun.Case {
 			p.LEMode = &le
 		}
 	}
+	// padding pressure: many single-segment writes that leave a room of
+	// 0..600 bytes in the datagram (where middle and end padding have to
+	// share what is left), with large padding maxima and low entropy off
+	if rapid.IntRange(0, 2).Draw(t, "pressure") == 0 {
+		room := rapid.SampledFrom([]int{0, 1, 100, 254, 255, 256, 280, 300, 400, 509, 510, 600}).Draw(t, "room")
+		for _, p := range []*e2e.PatternSpec{&c.Cfg.ClientPattern, &c.Cfg.ServerPattern} {
+			p.Nil = false
+			v1, v2, off := int32(255), int32(255), int32(0)
+			p.PadMid, p.PadEnd, p.LEMode = &v1, &v2, &off
+			if rapid.IntRange(0, 3).Draw(t, "padSmall") == 0 {
+				v1 = rapid.SampledFrom([]int32{1, 64, 128, 200}).Draw(t, "padMidP")
+			}
+		}
+		mtu := func(m int) int {
+			if m == 0 {
+				return 1400
+			}
+			return m
+		}
+		const overhead = 88 // nonce + metadata + two tags (protocol.md)
+		for i := range c.Progs {
+			var up, down []int
+			n := rapid.IntRange(15, 40).Draw(t, "nPressure")
+			for j := 0; j < n; j++ {
+				jitter := rapid.IntRange(0, 40).Draw(t, "jitter")
+				up = append(up, mtu(c.Cfg.ClientMTU)-overhead-room-jitter)
+				down = append(down, mtu(c.Cfg.ServerMTU)-overhead-room-jitter)
+			}
+			c.Progs[i].Up.Writes, c.Progs[i].Down.Writes = up, down
+			if i >= 1 {
+				// keep the case small: pressure on the first two sessions only
+				break
+			}
+		}
+		c.Pressure = true
+	}
 	return c
 }
 
@@ -84,6 +120,7 @@ func prop(c udprun.Case) (o pbt.Outcome) {
 	nonDefault := !c.Cfg.ClientPattern.IsDefault() || !c.Cfg.ServerPattern.IsDefault()
 	o.NonTrivial = nearMTU > 0 || nonDefault
 	o.Label("nearMTU>0=%v", nearMTU > 0)
+	o.Label("paddingPressure=%v", c.Pressure)
 	o.Label("clientMTU=%d", res.ClientMTU)
 	o.Label("retrans>0=%v", res.Retransmissions() > 0)
 	for k := range kinds {
